@@ -30,6 +30,8 @@ type Case struct {
 	// BadPass (with Auth): the client sends a wrong password; the rejection (what is reported, that the
 	// connection ends, that nothing of the session is served) looks the same inside TLS as in plaintext
 	BadPass bool `json:"bad_pass,omitempty"`
+	// ViaFields: Server.TLSConfig / Server.Auth assigned after NewServer instead of passed as options
+	ViaFields bool `json:"via_fields,omitempty"`
 }
 
 const marker = "MARKER"
@@ -49,7 +51,7 @@ func (c Case) config() script.Config {
 	if lim == 0 {
 		lim = 1 << 14
 	}
-	cfg := script.Config{TLS: c.TLS, Table: table(), SetLimit: true, Limit: lim}
+	cfg := script.Config{TLS: c.TLS, Table: table(), SetLimit: true, Limit: lim, ViaFields: c.ViaFields}
 	if c.Auth {
 		cfg.Auth = &script.AuthSpec{User: "tls-user", Pass: marker + "-PASSWORD"}
 	}
